@@ -8,7 +8,7 @@ from core import term as T
 ID = "C08"
 GEN = []
 RULE = ("case = (relation between servers and shares, naming of the servers [20-byte ids as in Tahoe; integers 0..n-1 / 1..n "
-        "and floats that compare equal to share numbers; mixed int/str/bytes], insertion order of the sharemap dict and of its peer sets); "
+        "and floats that compare equal to share numbers; mixed int/str/bytes], insertion order of the sharemap dict and of its peer sets, 0..3 share entries with an empty server set [probability 0.3]); "
         "distinct = distinct (canonical relation, insertion order); non-trivial = the relation has at least one edge "
         "(the flow network is built and at least one BFS runs); thorough enumerates every relation between <= 4 "
         "servers and <= 4 shares (74 963 relations)")
@@ -262,7 +262,7 @@ class Batch(object):
         self.terms, self.info = [], []
 
 
-def one_case(ctx, batch, edges, empty_shares, variants, r, kind, deep=False, cert=True, top=True, naming="sha1", model=True):
+def one_case(ctx, batch, edges, empty_shares, variants, r, kind, deep=False, cert=True, top=True, naming="sha1", model=True, svm=True):
     """edges: iterable of (server index, share number).  naming: how the servers are named in the
     sharemap handed to the real function (the relation, hence the expected value and the model's
     input, is the same for every naming)."""
@@ -327,7 +327,10 @@ def one_case(ctx, batch, edges, empty_shares, variants, r, kind, deep=False, cer
                             expected=edges, observed=rel)
             continue
         svm = [(numbering[p], list(shs)) for p, shs in sbs.items()]
-        if sm:
+        if empty_shares:
+            kind_e = "with-ownerless-shares"
+            ctx.count("kind:" + kind_e)
+        if sm and svm:
             a = "chk_soh %s %s" % (t_svm(svm), T.Z(got))
             if on(cert, v):
                 # cross-check: the Koenig certificate read off the model's final state is accepted
@@ -360,6 +363,16 @@ def one_case(ctx, batch, edges, empty_shares, variants, r, kind, deep=False, cer
         ctx.oracle_fail("soh-depends-on-insertion-order", "servers_of_happiness gives %r for the same relation under different insertion orders" % (results,),
                         case={"edges": [list(e) for e in edges]}, expected=want, observed=results)
     return want
+
+
+def pick_empties(r, edges, p=0.3):
+    """With probability p: 1..3 share numbers nobody holds (share -> empty server set), taken from the gaps
+    of the share numbers in use and just above them."""
+    if r.random() >= p:
+        return set()
+    used = {s for _, s in edges}
+    free = [x for x in range(0, (max(used) if used else 0) + 4) if x not in used]
+    return set(r.sample(free, min(len(free), r.choice([1, 1, 2, 3]))))
 
 
 def all_small(max_s=4, max_h=4):
@@ -412,9 +425,7 @@ def random_relation(r):
     if r.random() < 0.3:
         remap = r.sample(range(0, 256), nh)
         E = {(p, remap[s]) for (p, s) in E}
-    empties = set()
-    if r.random() < 0.2:
-        empties = {300 + i for i in range(r.randrange(1, 3))}
+    empties = pick_empties(r, E, 0.3)
     return sorted(E), empties, style
 
 
@@ -448,6 +459,11 @@ def run(ctx):
             # the same relation with servers named 0..n-1 (ids equal to share numbers) and, in rotation, the other schemes
             one_case(ctx, batch, E, set(), [0], ctx.rng("small-int", n), "exhaustive-%dx%d" % (ns, nh), naming="int",
                      model=(n % 6 == 0), cert=False, top=False)
+            re_ = ctx.rng("small-empty", n)
+            emp = pick_empties(re_, E, 0.3)
+            if emp:
+                one_case(ctx, batch, E, emp, [0, 2], re_, "exhaustive-%dx%d" % (ns, nh), naming=("sha1", "int")[n % 2],
+                         model=[0] if n % 3 == 0 else False, cert=False, top=[0], svm=False)
             if n % 4 == 0:
                 one_case(ctx, batch, E, set(), [2], ctx.rng("small-alt", n), "exhaustive-%dx%d" % (ns, nh),
                          naming=NAMINGS[2 + (n // 4) % 3], model=(n % 24 == 0), cert=False, top=False)
@@ -465,15 +481,21 @@ def run(ctx):
                      model=[0, 2] if n % 3 == 0 else [0], cert=[0], top=[0] if n % 3 == 1 else [])
             one_case(ctx, batch, E, set(), [0], ctx.rng("small-int", n), "exhaustive-%dx%d" % (ns, nh), naming="int",
                      model=(n % 4 == 0), cert=False, top=False, deep=(n % 164 == 0))
+            re_ = ctx.rng("small-empty", n)
+            emp = pick_empties(re_, E, 0.3)
+            if emp:     # the same relation plus share entries nobody holds; sharemap-level model
+                one_case(ctx, batch, E, emp, [0, 2], re_, "exhaustive-%dx%d" % (ns, nh), naming=("sha1", "int")[n % 2],
+                         model=[0], cert=False, top=[0], svm=False)
             n += 1
         cells = [(p, s) for p in range(4) for s in range(4)]
         for i in range(ctx.n(150, 3000)):
             r = ctx.rng("s44", i)
             bits = r.getrandbits(16)
             E44 = [c for j, c in enumerate(cells) if bits >> j & 1]
-            one_case(ctx, batch, E44, set(), [0, 1, 2], r, "sample-4x4", deep=(i % 29 == 0),
-                     model=[0, 1 + i % 2], cert=[0], top=[0] if i % 3 == 0 else [])
-            one_case(ctx, batch, E44, set(), [0, 2], ctx.rng("s44-alt", i), "sample-4x4", naming=NAMINGS[1 + i % 4],
+            emp = pick_empties(r, E44, 0.3)
+            one_case(ctx, batch, E44, emp, [0, 1, 2], r, "sample-4x4", deep=(i % 29 == 0),
+                     model=[0, 1 + i % 2], cert=[0], top=[0] if (i % 3 == 0 or emp) else [])
+            one_case(ctx, batch, E44, emp, [0, 2], ctx.rng("s44-alt", i), "sample-4x4", naming=NAMINGS[1 + i % 4],
                      model=(i % 3 == 0), cert=False, top=False)
     batch.flush("c08small")
 
@@ -484,7 +506,7 @@ def run(ctx):
         small = len({p for p, _ in E}) + len({s for _, s in E}) <= 10
         quick = ctx.tier == "quick" and not ctx.search
         w = one_case(ctx, batch, E, empties, [0, 1, 2, 3], r, "random-" + style, deep=small and i % 3 == 0,
-                     model=[0, 2 + i % 2] if quick else True, cert=[0] if quick else True, top=[0] if (i % 2 == 0 or not quick) else [])
+                     model=[0, 2 + i % 2] if quick else True, cert=[0] if quick else True, top=[0] if (i % 2 == 0 or empties or not quick) else [])
         # same relation, other server ids (the share numbers of a random relation are 0..29 or remapped, the
         # integer server ids 0..29 overlap them)
         one_case(ctx, batch, E, empties, [0, 2], ctx.rng("rand-alt", i), "random-" + style, naming=NAMINGS[1 + i % 4],
